@@ -2,6 +2,8 @@
 // conservation monitor (live solution objects == registered handles, via the MASA_VERIF hook) and a heap-growth
 // measurement for repeated masa_init in the plain build.
 #include "common.hpp"
+#include <fcntl.h>
+#include <unistd.h>
 #include <config.h>
 #include <malloc.h>
 #include <climits>
@@ -97,6 +99,9 @@ template <class S> static void vectors(Rng& r) {
         // evaluate with vectors of unequal / zero length
         const SolSpec* sp = find_sol(sol);
         for (auto& id : sp->prov) call_ev<S>(api()[ev_index(id)], a, r.below(8), cbK<S>());
+        // ... also at points that take other branches of the evaluators: far field (x > 1000), x <= 0, huge
+        static const long double XS[] = {1500.25L, 1000.5L, 1e6L, 0.0L, -3.0L, 999.999L};
+        for (long double xv : XS) { S b[4] = {(S)xv, S(0.4), S(0.5), S(0.6)}; for (auto& id : sp->prov) call_ev<S>(api()[ev_index(id)], b, r.below(8), cbK<S>()); LOG.count("extreme_calls", 1); }
         masa_sanity_check<S>(); masa_display_vec<S>();
         CAP.end();
         if ((int)g.size() != len) viol("vector-length-not-honoured", "get_vec after set_vec(len " + std::to_string(len) + ") has length " + std::to_string(g.size()));
@@ -104,6 +109,30 @@ template <class S> static void vectors(Rng& r) {
       }
     CAP.begin(); masa_init_param<S>(); CAP.end();
   }
+}
+
+// standard output that cannot be written (disk full: /dev/full): every printing API function must still release what it allocates and
+// leave the registry consistent (observed through the live-object hook right away and by LeakSanitizer at exit)
+template <class S> static void bad_stdout() {
+  const std::string P = ST<S>::name();
+  CAP.begin(); masa_init<S>("bs", "euler_1d"); masa_init<S>("bs2", "radiation_integrated_intensity"); CAP.end();
+  fflush(stdout); std::cout.flush();
+  int keep = dup(1), full = open("/dev/full", O_WRONLY);
+  if (keep < 0 || full < 0) { LOG.count("bad_stdout_unavailable", 1); return; }
+  dup2(full, 1);
+  for (int k = 0; k < 6; k++) {
+    op<S>("printing API functions with stdout on /dev/full, round " + std::to_string(k) + " <" + P + ">");
+    masa_printid<S>(); masa_list_mms<S>(); masa_display_param<S>(); masa_display_vec<S>(); masa_sanity_check<S>();
+    masa_set_param<S>("no-such-parameter", S(1)); masa_get_param<S>("no-such-parameter");
+    S a[4] = {S(0.3), S(0.4), S(0.5), S(0.6)};
+    call_ev<S>(api()[ev_index("source_w/S3")], a, 1, nullptr);   // an unprovided evaluator prints its error line
+    masa_init<S>("bs", k % 2 ? "euler_1d" : "heateq_2d_steady_const");
+    std::cout.flush(); fflush(stdout);
+    LOG.count("bad_stdout_rounds", 1);
+  }
+  dup2(keep, 1); close(keep); close(full);
+  std::cout.clear(); clearerr(stdout);
+  conserve<S>("printing with an unwritable stdout");
 }
 
 static void c_arrays(Rng& r) {
@@ -216,6 +245,8 @@ int main(int argc, char** argv) {
   if (mode == "carrays" || mode == "small") c_arrays(r);
   if (mode == "extremes") { if (d) extremes<double>(sols); else extremes<long double>(sols); }
   if (mode == "strings") { if (d) strings<double>(); else strings<long double>(); }
+  if (mode == "badstdout") { if (d) bad_stdout<double>(); else bad_stdout<long double>(); }
+  if (mode == "badstdout") { if (d) bad_stdout<double>(); else bad_stdout<long double>(); }
   if (mode == "growth") { if (d) growth<double>(); else growth<long double>(); }
   LOG.count("api_operations", n_ops);
   end_ok();
